@@ -470,6 +470,7 @@ func (fr *Frame) evalBuiltin(st *State, call *ast.CallExpr, name string) []*Term
 		m := e.load(st, l)
 		k := fr.evalAs(st, call.Args[1], mt.Key())
 		inDom := Select(Acc(m, "dom"), k)
+		st.Assume(Implies(inDom, Ge(Acc(m, "card"), IntLit(1))))
 		nm := Ctor(m.S, Acc(m, "val"), Store(Acc(m, "dom"), k, False), Ite(inDom, Sub(Acc(m, "card"), IntLit(1)), Acc(m, "card")))
 		e.store(st, l, nm)
 		return nil
